@@ -249,7 +249,7 @@ def expected(call):
     if op in ("mk_dnf", "mk_cnf"):
         nv = int(call[1])
         clauses = [pv_of(c) for c in call[2][1:]]
-        if nv > MAXNV or any(x >= nv for cl in clauses for x, _ in cl):
+        if any(x >= nv for cl in clauses for x, _ in cl):
             raise NotCovered("range")
         if op == "mk_dnf":
             return nv, lambda v: any(all(v[x] == c for x, c in cl) for cl in clauses)
@@ -304,6 +304,15 @@ def valuations(call, nodes, nv, rng_seed=12345):
     rel = relevant_vars(call, nodes, nv)
     import random as _r
     rng = _r.Random(rng_seed)
+    if call[0] in ("mk_dnf", "mk_cnf"):
+        # one valuation per clause that satisfies (mk_cnf: falsifies) exactly that clause as far as possible: the literals of the
+        # clause as given (negated), every other variable random; a dropped or merged clause shows on its own valuation
+        for c in call[2][1:]:
+            for _ in range(8):
+                v = [rng.random() < 0.5 for _ in range(nv)]
+                for x, val in pv_of(c):
+                    v[x] = val if call[0] == "mk_dnf" else not val
+                yield v
     if len(rel) <= 12:
         for bits in itertools.product([False, True], repeat=len(rel)):
             v = [False] * nv
